@@ -54,6 +54,9 @@ type mRoot struct {
 	Globals []mGlobal `json:"globals"`
 	Pre     []string  `json:"pre"`
 	Push    []string  `json:"push"`
+	Ctl     bool      `json:"ctl"`
+	CR      []string  `json:"cr"`
+	NR      []string  `json:"nr"`
 	Err     string    `json:"err,omitempty"`
 }
 
@@ -136,7 +139,14 @@ func (n *mNames) projectRoot(r tuf.RootMetadata) (m mRoot) {
 			m = mRoot{Err: fmt.Sprint("panic: ", x)}
 		}
 	}()
-	m = mRoot{Pr: []string{}, RootIDs: []string{}, TgtIDs: []string{}, Globals: []mGlobal{}, Pre: []string{}, Push: []string{}}
+	m = mRoot{Pr: []string{}, RootIDs: []string{}, TgtIDs: []string{}, Globals: []mGlobal{}, Pre: []string{}, Push: []string{}, CR: []string{}, NR: []string{}}
+	m.Ctl = r.IsController()
+	for _, o := range r.GetControllerRepositories() {
+		m.CR = append(m.CR, o.GetName())
+	}
+	for _, o := range r.GetNetworkRepositories() {
+		m.NR = append(m.NR, o.GetName())
+	}
 	for id := range r.GetPrincipals() {
 		m.Pr = append(m.Pr, n.name(id))
 	}
@@ -276,6 +286,14 @@ func applyRootEdit(r tuf.RootMetadata, e mEdit, n *mNames) error {
 		return err
 	case "RemoveHook":
 		return r.RemoveHook(stagesOf(e.Stages), e.Name)
+	case "EnableController":
+		return r.EnableController()
+	case "DisableController":
+		return r.DisableController()
+	case "AddControllerRepository":
+		return r.AddControllerRepository(e.Name, "https://example.com/"+e.Name, []tuf.Principal{conc.GetKey(n.seed, "repo-"+e.Name).TufKey()})
+	case "AddNetworkRepository":
+		return r.AddNetworkRepository(e.Name, "https://example.com/"+e.Name, []tuf.Principal{conc.GetKey(n.seed, "repo-"+e.Name).TufKey()})
 	}
 	return fmt.Errorf("unknown root edit %q", e.Op)
 }
